@@ -288,7 +288,32 @@ func runL2Case(r *vf.Run, bc *blobCase, a *alteration, p l2Params, caseNo uint64
 		if _, err := l.RootNode(0); err == nil {
 			r.Violate("i:rootnode-after-failed-verify:L2:"+cls, "Verify(pinned) failed but RootNode hands out a filesystem ("+a.Desc+")", replay)
 		}
-		return
+		// A refusal must be final for the cached layer: do what a retried Mount does
+		// (Resolve hits the layer cache, prefetch is (re)started, Verify with the same digest).
+		for k := 0; k < 2 && verr != nil; k++ {
+			lr, err := s.env.Resolve(ctx, s.im, 0)
+			if err != nil {
+				break
+			}
+			defer lr.Done()
+			if k == 1 || p.Sched == "none" {
+				l = lr
+				start()
+				bg.Wait()
+			}
+			r.Count("l2_verify_retries_after_refusal", 1)
+			verr = lr.Verify(digest.Digest(a.Pin))
+			l = lr
+		}
+		if verr != nil {
+			return
+		}
+		r.Count("l2_verify_retry_returned_nil:"+cls, 1)
+		replay["verify_history"] = "Verify(pinned) refused, then returned nil on a retry on the same cached layer"
+		ac := *a
+		ac.Class = "after-verify-retry"
+		ac.Desc = a.Desc + " [Verify refused first, nil on retry]"
+		a, cls = &ac, ac.Class
 	}
 	r.Count("l2_verify_ok:"+cls, 1)
 	checkVerifyNil(r, "L2", bc, a, a.Pin, replay)
